@@ -210,12 +210,15 @@ func generate(p *Prog, prop string, cover bool) *RunResult {
 			rr.Unbound = append(rr.Unbound, k)
 			continue
 		}
-		if prop != "" && !relevant(p, fc, prop) {
+		if prop != "" && !relevant(p, fc, prop) && !touchesProtected(p, fn, prop) {
 			continue
 		}
 		if fc.Trusted {
 			rr.Trusted = append(rr.Trusted, shortPkg(fc.PkgPath)+"."+fc.Key)
 			continue
+		}
+		for _, a := range fc.Assumes {
+			rr.Trusted = append(rr.Trusted, shortPkg(fc.PkgPath)+"."+fc.Key+": assumed clause `"+a.Text+"`")
 		}
 		e := verifyFunc(p, fn, fc, cover)
 		rr.Execs = append(rr.Execs, e)
@@ -232,6 +235,52 @@ func generate(p *Prog, prop string, cover bool) *RunResult {
 		}
 		for n := range e.unsup {
 			rr.Unsupported = append(rr.Unsupported, e.name+": "+n)
+		}
+	}
+	// discipline sweep: functions without a contract in packages that declare
+	// protected fields for this property are scanned for their accesses
+	if prop != "" {
+		pkgs := map[string]bool{}
+		for _, fd := range p.CS.Fields {
+			if contains(fd.Tags, prop) {
+				pkgs[fd.PkgPath] = true
+			}
+		}
+		done := map[*ssa.Function]bool{}
+		for _, k := range keys {
+			if fn := p.FnByKey[k]; fn != nil {
+				done[fn] = true
+			}
+			if fc := p.CS.Funcs[k]; fc != nil && fc.IsClosure {
+				if parent := p.FnByKey[fc.PkgPath+"::"+fc.Parent]; parent != nil {
+					if fn := p.bindClosure(parent, fc); fn != nil {
+						done[fn] = true
+					}
+				}
+			}
+		}
+		for _, k := range sortedKeys(p.FnByKey) {
+			fn := p.FnByKey[k]
+			pk := k[:strings.Index(k, "::")]
+			if !pkgs[pk] || done[fn] || len(fn.Blocks) == 0 || fn.Name() == "init" || strings.HasPrefix(fn.Name(), "init#") {
+				continue
+			}
+			if tags, un := p.CS.Unscoped[k]; un && contains(tags, prop) {
+				rr.Notes = append(rr.Notes, "unscoped: "+k+" is outside the intended concurrent use; its accesses are not checked")
+				continue
+			}
+			if !touchesProtected(p, fn, prop) {
+				continue
+			}
+			fc := &FuncContract{PkgPath: pk, Key: fnKey(fn), Roles: []string{"any"}}
+			e := verifyFunc(p, fn, fc, false)
+			rr.Execs = append(rr.Execs, e)
+			rr.Functions = append(rr.Functions, e.name+" (discipline sweep)")
+			for _, o := range e.obls {
+				if o.Kind == "discipline" {
+					rr.Obls = append(rr.Obls, o)
+				}
+			}
 		}
 	}
 	// refinement: every module implementation of an interface with a (non-assumed)
@@ -418,4 +467,24 @@ func verifyRefinement(p *Prog, fn *ssa.Function, own, ifc *FuncContract) *Exec {
 		e.obligeNoAssume(st, "refines:post:"+lbl, "post", c.Tags, e.evalBool(penv, c.Expr), c.Text, fn.Pos())
 	}
 	return e
+}
+
+// touchesProtected: does fn (syntactically) access a field with a protection declared for prop?
+func touchesProtected(p *Prog, fn *ssa.Function, prop string) bool {
+	for _, b := range fn.Blocks {
+		for _, in := range b.Instrs {
+			fa, ok := in.(*ssa.FieldAddr)
+			if !ok {
+				continue
+			}
+			stt, T := structOf(fa.X.Type())
+			if stt == nil {
+				continue
+			}
+			if fd := p.fieldDecl(T, stt.Field(fa.Field).Name()); fd != nil && contains(fd.Tags, prop) {
+				return true
+			}
+		}
+	}
+	return false
 }
